@@ -244,6 +244,134 @@ theorem bzip_self : ∀ (s : Shape), bzip s s = some s
   | [] => rfl
   | a :: s => by simp [bzip, bdim_self, bzip_self s]
 
+theorem bdim_of_spec {a b d : Nat} (ha : a = d ∨ a = 1) (hb : b = d ∨ b = 1) (hd : d = a ∨ d = b) : bdim a b = some d := by
+  unfold bdim
+  rcases ha with rfl | rfl <;> rcases hb with rfl | rfl
+  · simp
+  · by_cases h : a = 1 <;> simp [h]
+  · by_cases h : 1 = b
+    · simp [h]
+    · simp [h]
+  · rcases hd with rfl | rfl <;> simp
+
+theorem bzip_of_spec : ∀ (p q r : Shape), p.length = r.length → q.length = r.length →
+    (∀ k, k < r.length → (p.getD k 0 = r.getD k 0 ∨ p.getD k 0 = 1) ∧ (q.getD k 0 = r.getD k 0 ∨ q.getD k 0 = 1) ∧
+      (r.getD k 0 = p.getD k 0 ∨ r.getD k 0 = q.getD k 0)) → bzip p q = some r
+  | [], [], [], _, _, _ => rfl
+  | [], [], _ :: _, h, _, _ => by simp at h
+  | [], _ :: _, [], _, h, _ => by simp at h
+  | [], _ :: _, _ :: _, h, _, _ => by simp at h
+  | _ :: _, [], r, h1, h2, _ => by rw [← h2] at h1; simp at h1
+  | _ :: _, _ :: _, [], h, _, _ => by simp at h
+  | a :: p, b :: q, d :: r, h1, h2, h => by
+    have h0 := h 0 (by simp)
+    simp only [List.getD_cons_zero] at h0
+    have hrec := bzip_of_spec p q r (by simpa using h1) (by simpa using h2) (fun k hk => by simpa using h (k + 1) (by simpa using hk))
+    simp [bzip, bdim_of_spec h0.1 h0.2.1 h0.2.2, hrec]
+
+/-! ### torch's own broadcast loop -/
+
+theorem merge1_eq_bdim (c s : Nat) : merge1 c s = bdim c s := by
+  unfold merge1 bdim
+  by_cases h1 : s = c
+  · subst h1; simp
+  · have h1' : ¬ c = s := fun h => h1 h.symm
+    simp only [h1, h1', if_false]
+    by_cases hc : c = 1
+    · subst hc
+      have : ¬ s = 1 := h1
+      simp [this]
+    · simp only [hc, if_false]
+      by_cases hs : s = 1
+      · simp [hs]
+      · simp [hs, h1']
+
+theorem bzip_ones_left : ∀ (b : Shape), bzip (List.replicate b.length 1) b = some b
+  | [] => rfl
+  | y :: ys => by
+    simp only [List.length_cons, List.replicate_succ, bzip, bzip_ones_left ys]
+    have : bdim 1 y = some y := by unfold bdim; by_cases h : 1 = y <;> simp [h]
+    simp [this]
+
+theorem bzip_snoc : ∀ (p q : Shape) (x y : Nat), p.length = q.length →
+    bzip (p ++ [x]) (q ++ [y]) = match bzip p q, bdim x y with
+      | some r, some d => some (r ++ [d])
+      | _, _ => none
+  | [], [], x, y, _ => by
+    simp only [List.nil_append, bzip]
+    cases bdim x y <;> simp
+  | [], _ :: _, _, _, h => by simp at h
+  | _ :: _, [], _, _, h => by simp at h
+  | a :: p, b :: q, x, y, h => by
+    simp only [List.cons_append, bzip]
+    rw [bzip_snoc p q x y (by simpa using h)]
+    cases bdim a b <;> cases bzip p q <;> cases bdim x y <;> simp
+
+theorem padTo_snoc (n : Nat) (a : Shape) (x : Nat) (h : a.length + 1 ≤ n + 1) :
+    padTo (n + 1) (a ++ [x]) = padTo n a ++ [x] := by
+  unfold padTo
+  simp only [List.length_append, List.length_cons, List.length_nil]
+  have : n + 1 - (a.length + 0 + 1) = n - a.length := by omega
+  rw [this, List.append_assoc]
+
+theorem padTo_nil (n : Nat) : padTo n [] = List.replicate n 1 := by simp [padTo]
+
+/-- the padded, leading-aligned definition and the trailing-aligned recursion agree -/
+theorem broadcastShapes_eq_bcastRev : ∀ (k : Nat) (a b : Shape), a.length + b.length = k →
+    broadcastShapes a b = (bcastRev a.reverse b.reverse).map List.reverse := by
+  intro k
+  induction k using Nat.strongRecOn with
+  | ind k ih =>
+    intro a b hk
+    rcases List.eq_nil_or_concat a with rfl | ⟨a', x, ha⟩
+    · unfold broadcastShapes
+      simp only [List.length_nil, Nat.zero_max, padTo_nil, padTo_self, List.reverse_nil]
+      rw [bzip_ones_left]
+      cases hb : b.reverse <;> simp [bcastRev, ← hb]
+    · rw [List.concat_eq_append] at ha
+      subst ha
+      rcases List.eq_nil_or_concat b with rfl | ⟨b', y, hb⟩
+      · rw [broadcastShapes_comm]
+        unfold broadcastShapes
+        simp only [List.length_nil, Nat.zero_max, padTo_nil, padTo_self, List.reverse_nil]
+        rw [bzip_ones_left]
+        simp only [List.reverse_append, List.reverse_cons, List.reverse_nil, List.nil_append, List.singleton_append, bcastRev]
+        simp
+      · rw [List.concat_eq_append] at hb
+        subst hb
+        have hlen : max (a' ++ [x]).length (b' ++ [y]).length = max a'.length b'.length + 1 := by
+          simp only [List.length_append, List.length_cons, List.length_nil]; omega
+        have ih' := ih (a'.length + b'.length) (by simp at hk; omega) a' b' rfl
+        unfold broadcastShapes at ih' ⊢
+        simp only at ih' ⊢
+        rw [hlen, padTo_snoc _ a' x (by have := Nat.le_max_left a'.length b'.length; omega),
+          padTo_snoc _ b' y (by have := Nat.le_max_right a'.length b'.length; omega),
+          bzip_snoc _ _ x y (by rw [padTo_length (Nat.le_max_left _ _), padTo_length (Nat.le_max_right _ _)]), ih']
+        simp only [List.reverse_append, List.reverse_cons, List.reverse_nil, List.nil_append, List.singleton_append, bcastRev]
+        cases bcastRev a'.reverse b'.reverse <;> cases bdim x y <;> simp
+
+theorem mergeRev_ones : ∀ (n : Nat) (s : List Nat), s.length ≤ n →
+    mergeRev (List.replicate n 1) s = some (s ++ List.replicate (n - s.length) 1)
+  | n, [], _ => by simp [mergeRev]
+  | 0, _ :: _, h => by simp at h
+  | n + 1, y :: ys, h => by
+    simp only [List.replicate_succ, mergeRev, List.length_cons]
+    rw [mergeRev_ones n ys (by simpa using h), merge1_eq_bdim]
+    have : bdim 1 y = some y := by unfold bdim; by_cases h : 1 = y <;> simp [h]
+    simp [this]
+
+theorem mergeRev_pad : ∀ (xs ys : List Nat),
+    mergeRev (xs ++ List.replicate (max xs.length ys.length - xs.length) 1) ys = bcastRev xs ys
+  | [], ys => by
+    simp only [List.nil_append, List.length_nil, Nat.zero_max, Nat.sub_zero]
+    rw [mergeRev_ones _ ys (Nat.le_refl _)]
+    cases ys <;> simp [bcastRev]
+  | x :: xs, [] => by simp [mergeRev, bcastRev]
+  | x :: xs, y :: ys => by
+    simp only [List.cons_append, List.length_cons, mergeRev, bcastRev]
+    have : max (xs.length + 1) (ys.length + 1) - (xs.length + 1) = max xs.length ys.length - xs.length := by omega
+    rw [this, mergeRev_pad xs ys, merge1_eq_bdim]
+
 /-! ### facts used for `LieTensor.add` -/
 
 theorem bdim_absorb {a b d : Nat} (h : bdim a b = some d) : bdim b d = some d := by
